@@ -924,6 +924,132 @@ func cpDumpStaging(dir string) (map[string]string, error) {
 	return out, nil
 }
 
+// cpExtraneous: the restored consumer's tracker tables (state as of its tracker round) must hold exactly
+// the accounts, resources and kv pairs of the reference state of that round - nothing the lookups of
+// known addresses would not reveal (an account, box or holding that exists only on this node).
+func cpExtraneous(s *Sim, c *cpConsumer) string {
+	dbr := c.led.LatestTrackerCommitted()
+	st := s.states[dbr]
+	if st == nil {
+		return ""
+	}
+	acc, err := db.MakeAccessor(filepath.Join(c.dir, "ledger.tracker.sqlite"), true, false)
+	if err != nil {
+		s.harness = "side connection: " + err.Error()
+		return ""
+	}
+	defer acc.Close()
+	list := func(q string, n int) ([]string, error) {
+		rows, err := acc.Handle.Query(q)
+		if err != nil {
+			return nil, err
+		}
+		defer rows.Close()
+		var out []string
+		for rows.Next() {
+			var a []byte
+			var i int64
+			if n == 2 {
+				err = rows.Scan(&a, &i)
+			} else {
+				err = rows.Scan(&a)
+			}
+			if err != nil {
+				return nil, err
+			}
+			if n == 2 {
+				out = append(out, fmt.Sprintf("%x/%d", a, i))
+			} else {
+				out = append(out, string(a))
+			}
+		}
+		return out, rows.Err()
+	}
+	var rnd int64
+	if err := acc.Handle.QueryRow("SELECT rnd FROM acctrounds WHERE id='acctbase'").Scan(&rnd); err != nil || basics.Round(rnd) != dbr {
+		return "" // a flush is between its transaction and its in-memory update; not a quiescent table state
+	}
+	addrs, e1 := list("SELECT address FROM accountbase ORDER BY address", 1)
+	ress, e2 := list("SELECT b.address, r.aidx FROM resources r LEFT JOIN accountbase b ON b.rowid = r.addrid ORDER BY b.address, r.aidx", 2)
+	kvs, e3 := list("SELECT key FROM kvstore ORDER BY key", 1)
+	if e1 != nil || e2 != nil || e3 != nil {
+		s.harness = fmt.Sprintf("side connection queries: %v %v %v", e1, e2, e3)
+		return ""
+	}
+	s.stat("c16.table_sets_compared", 1)
+	for _, a := range addrs {
+		var ad basics.Address
+		copy(ad[:], a)
+		if _, ok := st.Accts[ad]; !ok {
+			return fmt.Sprintf("its account table (round %d) holds account %x.. which does not exist in the producer's state of that round", dbr, a[:6])
+		}
+	}
+	if len(addrs) != len(st.Accts) {
+		return fmt.Sprintf("its account table (round %d) holds %d accounts, the producer's state of that round %d", dbr, len(addrs), len(st.Accts))
+	}
+	want := map[string]bool{}
+	for k := range st.Assets {
+		want[fmt.Sprintf("%x/%d", k.Addr[:], k.Idx)] = true
+	}
+	for k := range st.Apps {
+		want[fmt.Sprintf("%x/%d", k.Addr[:], k.Idx)] = true
+	}
+	for _, r := range ress {
+		if !want[r] {
+			return fmt.Sprintf("its resources table (round %d) holds resource %s.. which does not exist in the producer's state of that round", dbr, cpShort(r))
+		}
+	}
+	if len(ress) != len(want) {
+		return fmt.Sprintf("its resources table (round %d) holds %d rows, the producer's state of that round has %d resources", dbr, len(ress), len(want))
+	}
+	for _, k := range kvs {
+		if _, ok := st.Kv[k]; !ok {
+			return fmt.Sprintf("its kv table (round %d) holds key %q which does not exist in the producer's state of that round", dbr, k)
+		}
+	}
+	if len(kvs) != len(st.Kv) {
+		return fmt.Sprintf("its kv table (round %d) holds %d keys, the producer's state of that round %d", dbr, len(kvs), len(st.Kv))
+	}
+	return ""
+}
+
+// adoptionDemo (only for a tampered file that VERIFIED with a different staged state): a fresh consumer
+// runs the complete catchup with it; reports what the restored ledger then serves.
+func (o *cpObs) adoptionDemo(s *Sim, f *cpFile, secs []cpSection, rg *rand.Rand) string {
+	if s.viol != nil {
+		return ""
+	}
+	c, err := o.openConsumer(s, rg)
+	if err != nil {
+		return ""
+	}
+	defer c.close()
+	x := &cpXfer{o: o, s: s, c: c, label: f.Label, stream: cpTar(secs), plan: cpPlan{crashAt: -1, restartAt: -1}}
+	if err := x.run(); err != nil {
+		return fmt.Sprintf(" [a complete catchup with this file ends with: %s]", cpShort(err.Error()))
+	}
+	s.stat("c15.adoption_demo", 1)
+	// what differs from the reference afterwards (the generic comparison must not end this run: it is a description)
+	mark := len(s.log.Lines)
+	o.compareRestored(s, c, f.Round, "tampered file")
+	d := "no difference visible through lookups of known addresses/keys and table sets"
+	if s.viol != nil {
+		d = s.viol.Detail
+		s.viol = nil
+		if len(s.log.Lines) > mark {
+			s.log.Lines[len(s.log.Lines)-1] = "  (demo) " + cpShort(s.log.Lines[len(s.log.Lines)-1])
+		}
+	}
+	return fmt.Sprintf(" [a complete catchup with this file SUCCEEDS (CompleteCatchup, ledger at round %d); the restored ledger then differs from the producer: %s]", c.led.Latest(), cpShortN(d, 700))
+}
+
+func cpShortN(m string, n int) string {
+	if len(m) > n {
+		return m[:n] + "..."
+	}
+	return m
+}
+
 func cpDumpDiff(a, b map[string]string) (n int, first string) {
 	keys := map[string]bool{}
 	for k := range a {
@@ -1073,6 +1199,10 @@ func (o *cpObs) tamperRound(s *Sim, f *cpFile, rg *rand.Rand, benign bool) {
 		o.judged[t.class] = true
 		s.stat("c15."+t.class+".passed", 1)
 		detail := fmt.Sprintf("catchpoint %s: file tampered by class %s (%s; fixup=%v) stages a state that differs from the producer's in %d row(s) (%s) and VerifyCatchpoint accepts it under the original label", f.Label, t.class, desc, fix, nd, first)
+		if !o.demoed[t.class] {
+			o.demoed[t.class] = true
+			detail += o.adoptionDemo(s, f, secs, rg)
+		}
 		s.log.Add("  C15 %s: VERIFIES with a different staged state: %s", t.class, desc)
 		if kernel.KnownKey("C15", t.class) {
 			s.known = append(s.known, kernel.Violation{Property: "C15", Oracle: "tampered-state-verifies", Key: t.class, Detail: detail, Step: s.step})
